@@ -506,6 +506,7 @@ func (c *Conn) Close() error {
 	// in is deliberately not closed: Write can be running on any goroutine, and
 	// a send on a closed channel panics. Closing done tells it to stop instead.
 	close(c.done)
+	verifYield("close-after-done")
 
 	fr := AcquireFrameHeader()
 	defer ReleaseFrameHeader(fr)
@@ -541,11 +542,14 @@ func (c *Conn) Close() error {
 func (c *Conn) Write(r *Ctx) {
 	select {
 	case c.in <- r:
+		verifClientEnq("in")
 	case <-c.done:
 		r.resolve(c.closeErr())
 
 		return
 	}
+
+	verifYield("write-between-selects")
 
 	// The write loop may have gone away between the send and now, in which case
 	// it has already drained the queue and nobody will ever pick this Ctx up.
@@ -562,6 +566,7 @@ func (c *Conn) Write(r *Ctx) {
 func (c *Conn) writeOut(fr *FrameHeader) {
 	select {
 	case c.out <- fr:
+		verifClientEnq("out")
 	case <-c.done:
 		ReleaseFrameHeader(fr)
 	}
@@ -645,6 +650,8 @@ func (we WriteError) As(target interface{}) bool {
 }
 
 func (c *Conn) writeLoop() {
+	defer verifClientLoopExit("write")
+
 	lastErr := c.runWriteLoop()
 	if lastErr == nil {
 		lastErr = io.ErrUnexpectedEOF
@@ -701,11 +708,15 @@ func (c *Conn) runWriteLoop() (lastErr error) {
 		case <-c.done:
 			return lastErr
 		case ctx := <-c.in: // sending requests
+			verifYield("wl-took-request")
+
 			err := c.writeRequest(ctx)
 			if err != nil {
 				ctx.resolve(err)
 
 				if errors.Is(err, ErrNotAvailableStreams) {
+					verifClientDeq()
+
 					continue
 				}
 
@@ -724,10 +735,14 @@ func (c *Conn) runWriteLoop() (lastErr error) {
 				return WriteError{err}
 			}
 		case <-ticker.C: // ping
+			verifClientEnq("tick")
+
 			if err := c.writePing(); err != nil {
 				return WriteError{err}
 			}
 		}
+
+		verifClientDeq()
 
 		if !c.disableAcks && atomic.LoadInt32(&c.unacks) >= 3 {
 			return ErrTimeout
@@ -764,6 +779,7 @@ func (c *Conn) finish(r *Ctx, stream uint32, err error) {
 }
 
 func (c *Conn) readLoop() {
+	defer verifClientLoopExit("read")
 	defer func() { _ = c.Close() }()
 
 	// A panic here would otherwise take the whole process down: this goroutine
@@ -1056,6 +1072,7 @@ func (c *Conn) addWindow(streamID uint32, inc int32) {
 func (c *Conn) signalWindow() {
 	select {
 	case c.winCh <- struct{}{}:
+		verifClientEnq("win")
 	default:
 	}
 }
